@@ -370,8 +370,10 @@ class Exec:
                 cell = t[1]
                 rest = rest[1:]
             elif cell in st.prov:
-                # a derived &mut (result of a call that took &mut root): write goes into the root
-                return st.prov[cell], [("via", t)] + rest[1:]
+                # a derived reference (into a sub-place, or the result of a call that took &mut):
+                # the write goes into the root, below the recorded prefix
+                root, pre = st.prov[cell]
+                return root, list(pre) + rest[1:]
             else:
                 return cell, rest
         return cell, rest
@@ -506,7 +508,7 @@ class Exec:
                 if mm:
                     return C(mm.group(1), "int")
             return APP("len", [t], "int")
-        m = re.fullmatch(r"&(?:raw (?:const|mut) )?(mut )?(.*)", rv, re.S)
+        m = re.fullmatch(r"&(?:raw (?:const|mut) )?(?:fake shallow |\(fake\) )?(mut )?(.*)", rv, re.S)
         if m and not rv.startswith("&&"):
             b, pr = self.parse_place(m.group(2))
             cell, rest = self.root_of(st, b, pr)
@@ -555,6 +557,10 @@ class Exec:
         m = re.fullmatch(r"([\w:<>, ']+)", rv)
         if m:   # unit-like enum variant / struct
             name = re.sub(r"::<.*>", "", rv)
+            return APP("ctor:" + name.split("::")[-1], [])
+        # unit-like variant / constant with arbitrary generic arguments, e.g. Option::<&[(&str, &str)]>::None
+        name = re.sub(r"::<.*>", "", rv)
+        if re.fullmatch(r"[\w:]+", name):
             return APP("ctor:" + name.split("::")[-1], [])
         raise ValueError("rvalue? " + rv)
 
@@ -670,11 +676,20 @@ class Exec:
         if val[0] == "subref":
             b, pr = self.parse_place(dest)
             if not pr:
-                st.prov[b] = val[1]
+                st.prov[b] = (val[1], tuple(val[2]))
                 st.env[b] = val[3]
                 return
             val = val[3]
         self.write_place(st, dest, val)
+        # a reference that travels through moves / Option payloads keeps pointing into its root
+        m2 = re.fullmatch(r"(?:no_retag )?(?:copy|move) (.*)", rv)
+        if m2 and re.fullmatch(r"_\d+", dest):
+            try:
+                b2, pr2 = self.parse_place(m2.group(1))
+            except ValueError:
+                return
+            if b2 in st.prov and all(x[0] in ("field", "variant") for x in pr2):
+                st.prov[dest] = st.prov[b2]
 
     def call(self, st, dest, fname, argtexts):
         fshort = re.sub(r"<impl at ([^:>]+):[^>]*>", r"<impl \1>", fname)
@@ -685,8 +700,8 @@ class Exec:
             a_s = re.sub(r"^(no_retag )?(copy|move) ", "", a.strip())
             root = None
             if t[0] == "ref":
-                root = t[1]
-                args.append(self.read_cell(st, root))
+                root = (t[1], ())
+                args.append(self.read_cell(st, t[1]))
             else:
                 if re.fullmatch(r"_\d+", a_s) and a_s in st.prov:
                     root = st.prov[a_s]
@@ -706,14 +721,19 @@ class Exec:
                     break
         if result is None:
             result = APP(fshort, args, dsort)
-            # a callee that takes &mut may change what the reference points to
-            for i, root in mut_roots:
-                st.env[root] = APP(fshort + "!mut" + str(i), args, "U")
+            # a callee that takes &mut may change what the reference points to (and only that)
+            for i, (cell, pre) in mut_roots:
+                new = APP(fshort + "!mut" + str(i), args, "U")
+                if pre:
+                    st.env[cell] = self.update(st, self.read_cell(st, cell), list(pre), new)
+                else:
+                    st.env[cell] = new
         if dest:
             b, pr = self.parse_place(dest)
             dty = self.fn.types.get(b, "") if not pr else ""
-            if mut_roots and dty.startswith("&mut") and not pr:
-                st.prov[b] = mut_roots[0][1]
+            if mut_roots and "&mut" in dty and not pr:
+                cell, pre = mut_roots[0][1]
+                st.prov[b] = (cell, tuple(pre) + (("via", result),))
             self.write_place(st, dest, result)
 
 
